@@ -911,6 +911,33 @@ func c14FlowsToResult(fc *FuncCtx, e ast.Expr, f string) bool {
 	if path != "" {
 		return false
 	}
+	// a local that is assigned to field f of the named result before every return
+	if res := fc.ResultObj(0); res != nil {
+		var stores []int
+		for _, v := range fc.G.V {
+			as, isAs := v.Node.(*ast.AssignStmt)
+			if !isAs || v.Kind != VStmt || len(as.Lhs) != len(as.Rhs) {
+				continue
+			}
+			for i, l := range as.Lhs {
+				lr, lp, lok := pathOf(info, l)
+				if lok && lr == res && lp == "."+f && objOf(info, as.Rhs[i]) == root {
+					stores = append(stores, v.ID)
+				}
+			}
+		}
+		if len(stores) > 0 {
+			all := true
+			for _, ret := range rets {
+				if !fc.G.Dominates(stores, ret) {
+					all = false
+				}
+			}
+			if all {
+				return true
+			}
+		}
+	}
 	for _, ret := range rets {
 		rs := fc.G.V[ret].Node.(*ast.ReturnStmt)
 		if len(rs.Results) != 1 {
